@@ -4,6 +4,8 @@
 # (and any extra checks named in meta.json "also"), undo it.  Appends to seeded/RESULTS.md.
 cd "$(dirname "$0")/.."
 dirs="$@"; [ -z "$dirs" ] && dirs=$(ls -d seeded/C*/ 2>/dev/null)
+# evidence/ must only ever hold records of runs on the unchanged tree: keep it aside while changes are applied
+keep=$(mktemp -d); cp -a evidence/. "$keep"/; trap 'cp -a "$keep"/. evidence/; rm -rf "$keep"' EXIT
 for d in $dirs; do
   d=${d%/}
   [ -f "$d/patch.diff" ] || continue
